@@ -471,18 +471,21 @@ func trimPathPrefix(u *url.URL, prefix string) *url.URL {
 	if !strings.HasPrefix(trimmedPath, "/") {
 		trimmedPath = "/" + trimmedPath
 	}
-	// After trimming path reconstruct uri string with Query before parsing
-	trimmedURI := trimmedPath
-	if u.RawQuery != "" || u.ForceQuery == true {
-		trimmedURI = trimmedPath + "?" + u.RawQuery
-	}
-	if u.Fragment != "" {
-		trimmedURI = trimmedURI + "#" + u.Fragment
-	}
-	trimmedURL, err := url.Parse(trimmedURI)
+	// Rebuild the URL from its parts instead of re-parsing the trimmed string:
+	// a remainder starting with "//" would be taken for an authority
+	// ("//host/..") and end up in URL.Host, where redirects pick it up.
+	trimmedUnescaped, err := url.PathUnescape(trimmedPath)
 	if err != nil {
-		log.Printf("[ERROR] Unable to parse trimmed URL %s: %v", trimmedURI, err)
+		log.Printf("[ERROR] Unable to unescape trimmed path %s: %v", trimmedPath, err)
 		return u
+	}
+	trimmedURL := &url.URL{
+		Path:        trimmedUnescaped,
+		RawPath:     trimmedPath,
+		RawQuery:    u.RawQuery,
+		ForceQuery:  u.ForceQuery,
+		Fragment:    u.Fragment,
+		RawFragment: u.RawFragment,
 	}
 	return trimmedURL
 }
